@@ -388,8 +388,12 @@ func (p *peer) sync() {
 	}
 	if !p.dead {
 		p.tr.Emit(vh.Ev{"ev": "sync", "to": !ok})
-		if !ok {
+		if !ok { // the sender did not move: the rest of the case means nothing; start over on a new connection
+			dbg("STALL")
 			*p.nfail++
+			p.tr.Flush()
+			p.dead = true
+			p.c.Close()
 		}
 	}
 }
@@ -480,6 +484,30 @@ func (e *env) request(body int, prime bool) *pstream {
 	return st
 }
 
+// chunks is a request body that arrives in pieces (one DATA frame per piece), so that MOSN's streamed mode is entered.
+type chunks struct{ left, max int }
+
+func (c *chunks) Read(p []byte) (int, error) {
+	if c.left == 0 {
+		return 0, io.EOF
+	}
+	n := len(p)
+	if n > 3000 {
+		n = 3000
+	}
+	if n > c.max {
+		n = c.max
+	}
+	if n > c.left {
+		n = c.left
+	}
+	for i := 0; i < n; i++ {
+		p[i] = 'x'
+	}
+	c.left -= n
+	return n, nil
+}
+
 type outcome struct {
 	Kind   string
 	Status int
@@ -490,12 +518,15 @@ type outcome struct {
 func (e *env) downstream(ctx context.Context, method, tok string, body int, out chan outcome) {
 	var rd io.Reader
 	if method == "POST" {
-		rd = strings.NewReader(strings.Repeat("x", body))
+		rd = &chunks{left: body, max: body/3 + 1}
 	}
 	req, err := http.NewRequestWithContext(ctx, method, "http://"+e.cliAddr+"/up", rd)
 	if err != nil {
 		out <- outcome{Kind: "error", Err: err.Error()}
 		return
+	}
+	if method == "POST" {
+		req.ContentLength = int64(body)
 	}
 	req.Header.Set("X-Token", tok)
 	defer func() {
@@ -627,6 +658,9 @@ func (e *env) prime(target int) {
 	e.opened([]*pstream{st})
 	if !p.pump(func() bool { return st.ended }, stepDeadline) && !p.dead {
 		p.tr.Emit(vh.Ev{"ev": "sync", "to": true})
+		*p.nfail++
+		p.dead = true
+		p.c.Close()
 	}
 	e.finish([]*pstream{st})
 }
